@@ -167,6 +167,7 @@ pub fn main(args: &[String]) -> i32 {
     let mut cur_val: HashMap<usize, Vec<u8>> = HashMap::new();
     let sizes = [20usize, 300, 3000, 4000, 4100, 7000, 8300];
     let edge_pct: u32 = o.num("edges", 25u32);
+    let readcheck = o.num("readcheck", 0u32) == 1;
     let wide: usize = o.num("wide", 0);
     let wide_every: usize = o.num("wideevery", 12usize).max(2);
     // backlog of untracked filler records (keys outside the universe of the trace): more than one
@@ -331,8 +332,9 @@ pub fn main(args: &[String]) -> i32 {
             let res = store.flush();
             flushes.push(FlushInfo { ok: res.is_ok(), snap: snapshot(&store, &keys) });
             obs::api("flush_end", &[], id, res.is_ok() as u64, 0);
-            if fault_at >= 0 {
+            if fault_at >= 0 || readcheck {
                 // C09: reads keep returning the latest accepted values from memory
+                // (C08, --readcheck: on a device that runs full, offloaded and deferred values too)
                 let mut bad = 0u64;
                 for (i, k) in keys.iter().enumerate() {
                     match (store.get(k), cur_val.get(&(i + 1))) {
